@@ -43,8 +43,11 @@ func Line(r *rand.Rand, o TextOpts) (string, string) {
 		return "", "blank-line"
 	case x < 40:
 		return pick(r, []string{" ", "   ", "\t", " \t "}), "ws-only-line"
-	case x < 47:
+	case x < 45:
 		return "---", "terminator"
+	case x < 47:
+		// a run of adjacent terminator lines (returned as one multi-line chunk)
+		return pick(r, []string{"---\n---", "---\n---\n---", "/-/-/-/\n---", "---\n/-/-/-/"}), "terminator-run"
 	case x < 53:
 		return "/-/-/-/", "escape-token"
 	case x < 58:
@@ -167,7 +170,15 @@ func Pair(r *rand.Rand, s string, creol bool) (string, string) {
 
 func pairOnce(r *rand.Rand, s string) (string, string) {
 	b := []byte(s)
-	switch r.IntN(14) {
+	switch r.IntN(16) {
+	case 14, 15:
+		// keep only the first k lines (what a reader sees when it stops at a line it takes for a terminator)
+		ls := strings.Split(s, "\n")
+		if len(ls) < 2 {
+			return s + "\ntail", "append-line"
+		}
+		k := 1 + r.IntN(len(ls)-1)
+		return strings.Join(ls[:k], "\n"), "truncate-after-line"
 	case 0:
 		if len(b) == 0 {
 			return "x", "insert-byte"
